@@ -33,6 +33,16 @@ import gunicorn.pidfile as gp            # noqa: E402
 
 _real_os = os
 CRASH_EXIT = 137
+MORGUE_AGE = 2.0
+
+
+def _scratch(tag):
+    """VERIF_SCRATCH if set; otherwise tmpfs when there is one (sixteen shards creating, renaming and
+    unlinking files serialise on the ext4 journal of /var/tmp), else common.scratch_dir's default."""
+    import tempfile
+    if not os.environ.get("VERIF_SCRATCH") and os.path.isdir("/dev/shm") and os.access("/dev/shm", os.W_OK):
+        return tempfile.mkdtemp(prefix="gunicorn-verif-%s-" % tag, dir="/dev/shm")
+    return common.scratch_dir(tag)
 REPLY_TIMEOUT = 20.0
 
 
@@ -174,10 +184,11 @@ class Lab:
     """Scratch directory + helper slots + harness-side file access."""
 
     def __init__(self, tag="c17"):
-        self.dir = common.scratch_dir(tag)
+        self.dir = _scratch(tag)
         os.chmod(self.dir, 0o777)         # unprivileged helpers create / rename / unlink here
         self.helpers = []
         self.forks = 0
+        self.morgue = []                  # (time of death, pid) of reaped children, newest last
 
     def parent_fds(self):
         fds = []
@@ -193,12 +204,30 @@ class Lab:
         return h
 
     def retire(self, h):
+        was = h.alive
         h.kill()
+        if was:
+            self.bury(h.pid)
         if h in self.helpers:
             self.helpers.remove(h)
 
-    def fresh_dead_pid(self):
-        """Pid of a child that has exited and has been reaped; ESRCH verified right now."""
+    def bury(self, pid):
+        self.morgue.append((time.time(), pid))
+        del self.morgue[:-32]
+
+    def fresh_dead_pid(self, exclude=()):
+        """Pid of a child of ours that has exited and has been reaped; ESRCH verified right now.
+        Recently reaped children (helpers killed in earlier histories, at most MORGUE_AGE seconds ago:
+        pid numbers are handed out cyclically, so the most recently freed one is the last to come back)
+        are used before forking a new one."""
+        now = time.time()
+        while self.morgue:
+            t, pid = self.morgue.pop()
+            if now - t > MORGUE_AGE:
+                self.morgue = []
+                break
+            if pid not in exclude and pid_is_dead(pid):
+                return pid
         for _ in range(20):
             pid = os.fork()
             if pid == 0:
